@@ -1,1 +1,165 @@
-import Depccg.Ja
+/-
+  C04  Japanese combinatory rules are sound.
+  Property theorems only; definitions and statements are in Depccg/Props/C04Defs.lean (unchanged),
+  helper lemmas in Depccg/Proofs/C04Lemmas.lean.
+-/
+import Depccg.Props.C04Defs
+import Depccg.Proofs.C04Lemmas
+
+namespace Depccg.C04
+open Depccg Cat Str
+open Depccg.C03 (PartsMatch Inst fwdSlash bwdSlash)
+
+/-- soundness: every result of the Japanese grammar is justified by the schema its symbol names -/
+theorem ja_sound : JaSoundStatement := by
+  intro seen x y rs hx hy h r hr
+  obtain ⟨c, hc, hcr⟩ := applyBinary_mem h hr
+  exact comb_sound hx hy hc hcr
+
+/-- the head is always the right child -/
+theorem ja_head_right : JaHeadRightStatement := by
+  intro seen x y rs h r hr
+  obtain ⟨c, hc, hcr⟩ := applyBinary_mem h hr
+  exact (comb_label hc hcr).2
+
+/-- the labels the Japanese binary rules can emit -/
+theorem ja_labels_closed : JaLabelsClosedStatement := by
+  intro seen x y rs h r hr
+  obtain ⟨c, hc, hcr⟩ := applyBinary_mem h hr
+  exact (comb_label hc hcr).1
+
+/-- feature triples of a result come from the inputs -/
+theorem ja_features_from_inputs : JaFeaturesFromInputsStatement := by
+  intro seen x y rs hx hy h r hr
+  exact justified_feats (ja_sound seen x y rs hx hy h r hr)
+
+/-- unary steps are labelled by the shape of their input -/
+theorem ja_unary_label : JaUnaryLabelStatement := by
+  intro T x rs hd h r hr
+  obtain ⟨sym, hs, h1, h2, h3⟩ := applyUnary_inv h hr
+  have := unaryRuleSymbol_spec hd hs
+  subst this
+  exact ⟨h1, h2, h3⟩
+
+/-- the unary labels are the six listed ones; the two label fields coincide -/
+theorem ja_unary_labels_closed : JaUnaryLabelsClosedStatement := by
+  intro T x rs h r hr
+  obtain ⟨sym, hs, h1, h2, _⟩ := applyUnary_inv h hr
+  rw [h1, h2]
+  exact ⟨unaryRuleSymbol_closed hs, rfl⟩
+
+/-! ### non-vacuity -/
+
+section Examples
+open Depccg.Ja (triCat)
+
+private def sBaseF : Cat := triCat "S" "mod" "nm" "form" "base" "fin" "f"
+private def sBaseT : Cat := triCat "S" "mod" "nm" "form" "base" "fin" "t"
+private def sX : Cat := triCat "S" "mod" "X1" "form" "X2" "fin" "f"
+private def sXt : Cat := triCat "S" "mod" "X1" "form" "X2" "fin" "t"
+private def npGa : Cat := triCat "NP" "case" "ga" "mod" "nm" "fin" "f"
+private def npO : Cat := triCat "NP" "case" "o" "mod" "nm" "fin" "f"
+
+/-- `(S[base,f]\NP[ga])\NP[o]` : a transitive verb -/
+private def exTV : Cat := .fn (.fn sBaseF cBSlash npGa) cBSlash npO
+/-- `S[base,t]\S[base,f]` : a sentence-final auxiliary -/
+private def exAux : Cat := .fn sBaseT cBSlash sBaseF
+/-- `S[base,f]\S[base,f]` : a modifier -/
+private def exMod : Cat := .fn sBaseF cBSlash sBaseF
+/-- `S[X1,X2,t]\S[X1,X2,f]` : an auxiliary with feature variables -/
+private def exAuxX : Cat := .fn sXt cBSlash sX
+
+private theorem tv_ternary : C14.AllTernary exTV := ⟨⟨trivial, trivial⟩, trivial⟩
+private theorem aux_ternary : C14.AllTernary exAux := ⟨trivial, trivial⟩
+
+/-- `<B2` fires: `(S[f]\NP)\NP` followed by `S[t]\S[f]` gives `(S[t]\NP)\NP` -/
+private theorem ex_b2 : Ja.applyBinary none exTV exAux =
+    .ok [lab "bx" "<B2" (.fn (.fn sBaseT cBSlash npGa) cBSlash npO)] := by decide +kernel
+
+/-- so the soundness theorem applies to it (all hypotheses hold) and yields the justification -/
+example : Justified exTV exAux (lab "bx" "<B2" (.fn (.fn sBaseT cBSlash npGa) cBSlash npO)) :=
+  ja_sound none exTV exAux _ tv_ternary aux_ternary ex_b2 _ (List.mem_singleton.2 rfl)
+
+/-- the same fact proved directly from the schema: the witnesses exist independently of the code -/
+example : Justified exTV exAux (lab "bx" "<B2" (.fn (.fn sBaseT cBSlash npGa) cBSlash npO)) :=
+  .b2 sBaseT sBaseF sBaseF npGa npO sBaseT npGa npO cBSlash cBSlash cBSlash rfl rfl (Or.inl rfl) (Or.inl rfl)
+    ⟨by decide, by simp [C06.feats, C06.AllCompat, C06.Compat, sBaseF, triCat]⟩ (by decide)
+    (by simp [Inst, C06.InstanceOf, sBaseT, triCat]) (by simp [Inst, C06.InstanceOf, npGa, triCat])
+    (by simp [Inst, C06.InstanceOf, npO, triCat])
+
+/-- with a modifier on the right the left category is returned unchanged (`<B2`, modifier case) -/
+example : Ja.applyBinary none exTV exMod = .ok [lab "bx" "<B2" exTV] := by decide +kernel
+
+/-- `>Bx1` fires: `S[t]/S[f]` followed by `S[f]\NP` gives `S[t]\NP` -/
+example : Ja.applyBinary none (.fn sBaseT cSlash sBaseF) (.fn sBaseF cBSlash npGa) =
+    .ok [lab "fx" ">Bx1" (.fn sBaseT cBSlash npGa)] := by decide +kernel
+
+/-- feature variables: `S[nm,base,f]\NP` followed by `S[X1,X2,t]\S[X1,X2,f]`.  The variable feature
+    of the matched `S[X1,X2,f]` is instantiated, the result category `S[X1,X2,t]` carries a different
+    feature object and is returned as it is (the `Inst` of the schema allows both) -/
+example : Ja.applyBinary none (.fn sBaseF cBSlash npGa) exAuxX =
+    .ok [lab "bx" "<B1" (.fn sXt cBSlash npGa)] := by decide +kernel
+
+/-- a feature variable that *is* instantiated: `(S[X1,X2,f]\NP)/S[X1,X2,f]` applied to `S[nm,base,f]`
+    gives `S[nm,base,f]\NP` (the `Inst` of the `fa` schema: variable features replaced by input features) -/
+example : Ja.applyBinary none (.fn (.fn sX cBSlash npGa) cSlash sX) sBaseF =
+    .ok [lab "fa" ">" (.fn sBaseF cBSlash npGa)] := by decide +kernel
+
+/-- backward application -/
+example : Ja.applyBinary none npGa (.fn sBaseF cBSlash npGa) = .ok [lab "ba" "<" sBaseF] := by
+  decide +kernel
+
+/-- two root categories: `SSEQ` (and nothing else) -/
+example : Ja.applyBinary none sBaseF sBaseT = .ok [lab "other" "SSEQ" sBaseT] := by decide +kernel
+
+/-- the feature theorem applies to the `<B2` example -/
+example : ∀ f ∈ C06.feats (Cat.fn (.fn sBaseT cBSlash npGa) cBSlash npO),
+    f ∈ C06.feats exTV ++ C06.feats exAux :=
+  ja_features_from_inputs none exTV exAux _ tv_ternary aux_ternary ex_b2 _ (List.mem_singleton.2 rfl)
+
+/-- `AllTernary` is needed: with unary features mixed in, matching raises and there is no result list -/
+example : Ja.applyBinary none (.fn sBaseF cSlash npGa) (.atom (lit "NP") (.un none))
+    = .error .attributeError := by decide +kernel
+
+/-! unary labels -/
+
+/-- `S[mod=adn,form=base,fin=f]` -/
+private def sAdn : Cat := triCat "S" "mod" "adn" "form" "base" "fin" "f"
+/-- `S[mod=adv,form=cont,fin=f]\NP[case=ga,mod=nm,fin=f]` -/
+private def sAdv1 : Cat := .fn (triCat "S" "mod" "adv" "form" "cont" "fin" "f") cBSlash npGa
+private def sAdv2 : Cat := .fn sAdv1 cBSlash npO
+
+example : specLabel sAdn = "ADNext" := by decide +kernel
+example : specLabel (.fn sAdn cBSlash npGa) = "ADNint" := by decide +kernel
+example : specLabel sAdv1 = "ADV1" := by decide +kernel
+example : specLabel sAdv2 = "ADV2" := by decide +kernel
+example : specLabel (triCat "S" "mod" "adv" "form" "cont" "fin" "f") = "ADV0" := by decide +kernel
+example : specLabel sBaseF = "OTHER" := by decide +kernel
+
+private theorem distinct_of_resultAtom {x : Cat} {b k1 v1 k2 v2 k3 v3 : Str}
+    (h : Ja.resultAtom x = .atom b (.tri k1 v1 k2 v2 k3 v3))
+    (hk : k1 ≠ k2 ∧ k1 ≠ k3 ∧ k2 ≠ k3) : DistinctKeys x := by
+  intro b' a1 w1 a2 w2 a3 w3 h'
+  rw [h] at h'
+  cases h'
+  exact hk
+
+example : DistinctKeys sAdv1 :=
+  distinct_of_resultAtom (x := sAdv1) rfl (by decide)
+
+/-- the code's labels on a table with a hit, as the theorem predicts -/
+example : Ja.applyUnary [(sAdv1, [sBaseF, npGa])] sAdv1 =
+    .ok [⟨sBaseF, lit "ADV1", lit "ADV1", true⟩, ⟨npGa, lit "ADV1", lit "ADV1", true⟩] := by
+  decide +kernel
+
+example : Ja.applyUnary [(sAdn, [npGa])] sAdn = .ok [⟨npGa, lit "ADNext", lit "ADNext", true⟩] := by
+  decide +kernel
+
+/-- `DistinctKeys` is needed: with the key `mod` twice the code looks at every pair, the
+    specification at the first -/
+example : Ja.unaryRuleSymbol (triCat "S" "mod" "adv" "mod" "adn" "fin" "f") = .ok (lit "ADNext") ∧
+    specLabel (triCat "S" "mod" "adv" "mod" "adn" "fin" "f") = "ADV0" := by decide +kernel
+
+end Examples
+
+end Depccg.C04
